@@ -224,8 +224,10 @@ func (e *Engine) Discharge(obls []*Obligation, par int) {
 		return d
 	}
 	if e.WorkDir == "" {
+		// no work directory was given (developer CLI): use a temporary one and remove it afterwards
 		d, _ := os.MkdirTemp("", "gocv")
 		e.WorkDir = d
+		defer func() { _ = os.RemoveAll(d); e.WorkDir = "" }()
 	}
 	if par < 1 {
 		par = 1
